@@ -597,6 +597,78 @@ func (t *SymbolTable) Index(s string) uint64 {
      "	if len(*s) == 1 {\n		v, err := s.Pop()\n		if err != nil {\n			return \"<invalid expression: failed to pop result value>\"",
      "	if len(*s) >= 1 {\n		v, err := s.Pop()\n		if err != nil {\n			return \"<invalid expression: failed to pop result value>\"",
      "go_Expression_Print_eq"),
+    ("G0_unmodified_baseline_stageG", "harmless", "symbol.go", "", "", None),
+    ("GR1_IsDisjoint_renamed_no_hint_inverted_test", "harmless", "symbol.go",
+     """	m := make(map[string]struct{}, len(*t))
+	for _, s := range *t {
+		m[s] = struct{}{}
+	}
+
+	for _, os := range *other {
+		if _, ok := m[os]; ok {
+			return false
+		}
+	}
+
+	return true""",
+     """	seen := make(map[string]struct{})
+	for _, mine := range *t {
+		seen[mine] = struct{}{}
+	}
+	for _, theirs := range *other {
+		_, found := seen[theirs]
+		if !found {
+			continue
+		}
+		return false
+	}
+	return true""", None),
+    ("GR2_Insert_test_not_nil_first", "harmless", "datalog.go",
+     """	existing := m[k]
+	if existing == nil {
+		m[k] = &v
+		return true
+	}
+	return v.Equal(*existing)""",
+     """	bound := m[k]
+	if bound != nil {
+		return v.Equal(*bound)
+	}
+	m[k] = &v
+	return true""", None),
+    ("GM1_IsDisjoint_true_on_first_non_member", "mutation", "symbol.go",
+     """		if _, ok := m[os]; ok {
+			return false
+		}
+	}""",
+     """		if _, ok := m[os]; ok {
+			return false
+		}
+		return true
+	}""", "go_SymbolTable_IsDisjoint_eq"),
+    ("GM2_IsDisjoint_set_built_from_other", "mutation", "symbol.go",
+     """	for _, s := range *t {
+		m[s] = struct{}{}
+	}""",
+     """	for _, s := range *other {
+		m[s] = struct{}{}
+	}""", "go_SymbolTable_IsDisjoint_eq"),
+    ("GM3_Insert_true_without_comparing", "mutation", "datalog.go",
+     "	return v.Equal(*existing)\n}\n\nfunc (m MatchedVariables) Complete()",
+     "	return true\n}\n\nfunc (m MatchedVariables) Complete()", "go_MatchedVariables_Insert_eq"),
+    ("GM4_Insert_overwrites_existing_binding", "mutation", "datalog.go",
+     "	return v.Equal(*existing)\n}\n\nfunc (m MatchedVariables) Complete()",
+     "	same := v.Equal(*existing)\n	m[k] = &v\n	return same\n}\n\nfunc (m MatchedVariables) Complete()", "go_MatchedVariables_Insert_eq"),
+    ("GU1_copy_of_the_local_set_is_refused", "unsupported", "symbol.go",
+     """	for _, os := range *other {
+		if _, ok := m[os]; ok {""",
+     """	alias := m
+	_ = alias
+	for _, os := range *other {
+		if _, ok := m[os]; ok {""", None),
+    ("GU2_assignment_to_the_variable_whose_address_is_stored_is_refused", "unsupported", "datalog.go",
+     "		m[k] = &v\n		return true",
+     "		m[k] = &v\n		v = Integer(0)\n		return true", None),
     ("U1_unsupported_construct_is_refused", "unsupported", "symbol.go",
      '''	*t = append(*t, s)
 
@@ -625,6 +697,8 @@ def pristine_datalog(dst):
 NEEDED = ["Base", "Term", "Expr", "DTerm", "Symbols", "Datalog", "Authz", "Wire", "Token", "DEval", "GoSem", "Odometer", "Printer"]
 # a private GoSem.v (stage E adds set_idx / down_loop to the prelude) replaces the committed one in the private base
 GOSEM = os.environ.get("GENFN_GOSEM", "")
+# model files that are not committed yet (stage G: Model/GoMap.v), comma separated: copied into the private base
+EXTRA_MODEL = [x for x in os.environ.get("GENFN_EXTRA_MODEL", "").split(",") if x]
 
 
 def snapshot_base():
@@ -639,6 +713,11 @@ def snapshot_base():
                    input=ar.stdout, check=True)
     if GOSEM:
         shutil.copy(GOSEM, os.path.join(BASE, "Model", "GoSem.v"))
+    for x in EXTRA_MODEL:
+        shutil.copy(x, os.path.join(BASE, "Model", os.path.basename(x)))
+        NEEDED.append(os.path.basename(x)[:-2])
+    if not EXTRA_MODEL and os.path.exists(os.path.join(BASE, "Model", "GoMap.v")):
+        NEEDED.append("GoMap")
     # coq/Generated.v is not tracked: regenerate it with /verif/build/gen from the COMMITTED /repo
     head = os.path.join(BASE, "repo_head")
     os.makedirs(head)
@@ -714,6 +793,7 @@ def main():
             stage_d = name.startswith("D")
             stage_e = name.startswith("E")
             stage_f = name.startswith("F")
+            stage_g = name.startswith("G")
             shutil.rmtree(SCRATCH, ignore_errors=True)
             os.makedirs(os.path.join(SCRATCH, "coq"))
             pristine_datalog(os.path.join(SCRATCH, "repo"))
@@ -791,6 +871,18 @@ def main():
                 # stage F: GenFnEvalProofs.v (slice lemmas), then GenFnPrintProofs.v
                 for fn, imp in (("GenFnEvalProofs.v", "From BV Require Import GeneratedFn GenFnProofs."),
                                 ("GenFnPrintProofs.v", "From BV Require Import GeneratedFn GenFnProofs GenFnEvalProofs.")):
+                    proofs = open(os.path.join(PROOFS, fn)).read()
+                    assert imp in proofs, fn
+                    proofs = proofs.replace(imp, imp.replace("From BV ", "From BVS "))
+                    pp = os.path.join(SCRATCH, "coq", fn)
+                    open(pp, "w").write(proofs)
+                    r2 = sh(["timeout", "1800", "coqc"] + args + [pp])
+                    if r2.returncode != 0:
+                        break
+            if stage_g and r2.returncode == 0:
+                # stage G: GenFnSetProofs.v (go_Term_Equal_eq, loop lemmas), then GenFnMapProofs.v
+                for fn, imp in (("GenFnSetProofs.v", "From BV Require Import GeneratedFn GenFnProofs."),
+                                ("GenFnMapProofs.v", "From BV Require Import GeneratedFn GenFnProofs GenFnSetProofs.")):
                     proofs = open(os.path.join(PROOFS, fn)).read()
                     assert imp in proofs, fn
                     proofs = proofs.replace(imp, imp.replace("From BV ", "From BVS "))
